@@ -6,9 +6,14 @@
 (* the output is a well-formed code file whose data and entry records are, in input order, exactly the *)
 (* entry records and the data records whose CPU id passes -f, with segment, granularity, address and   *)
 (* payload unchanged.                                                                                  *)
-(* A case: [files |-> <<bytes of input file 1, ...>>, filt |-> <<cpu ids>> (<<>> = no -f)].            *)
+(* A case: [files |-> <<bytes of input file 1, ...>>, filt |-> <<cpu ids>> (<<>> = no -f),            *)
+(*          quiet |-> BOOLEAN (-q)].                                                                   *)
 (* An observation: [rc |-> exit status, bytes |-> target file].                                        *)
 EXTENDS CodeFileBytes, TLC
+
+Devs == {"quiet_stale_errno"}   \* WriteRecordHeader calls ChkIO when fwrite SUCCEEDS (`if (fwrite(..))`); ChkIO looks at
+                                \* errno, which is only cleared by the progress message that -q suppresses: with -q the
+                                \* first data record copied ends the program with a bogus I/O error (exit 2)
 
 Creator == <<66, 73, 78, 68, 47, 67, 32, 49, 46, 52, 50>>          \* "BIND/C 1.42"
 
@@ -27,8 +32,11 @@ CopyItem(filt, out, it) ==
   ELSE out \o (IF WrShort(it) THEN <<it.cpu>> ELSE <<129, it.cpu, it.seg, it.gran>>)
            \o LE4(it.start) \o LE2(Len(it.data)) \o it.data
 ProcessFile(filt, out, b) == FoldLeft(LAMBDA o, it : CopyItem(filt, o, it), out, Decode(b).items)
-Run(c) ==
+CopiesData(c) == \E i \in 1..Len(c.files) : \E j \in 1..Len(Decode(c.files[i]).items) :
+                    LET it == Decode(c.files[i]).items[j] IN IsData(it) /\ FilterOK(c.filt, it.cpu)
+Run(D, c) ==
   IF \E i \in 1..Len(c.files) : ReaderRejects(c.files[i]) THEN [rc |-> 3, bytes |-> <<>>]     \* FormatError
+  ELSE IF "quiet_stale_errno" \in D /\ c.quiet /\ CopiesData(c) THEN [rc |-> 2, bytes |-> <<>>]
   ELSE [rc |-> 0, bytes |-> FoldLeft(LAMBDA o, b : ProcessFile(c.filt, o, b), Magic, c.files) \o <<0>> \o Creator]
 
 (***************************************************************************)
@@ -46,9 +54,10 @@ Conserved(c, obs) ==
 
 Verdict(c, obs) ==
   LET def == Definite(c)
-      m   == Run(c)
+      fits == {D \in SUBSET Devs : Run(D, c) = obs}
+      best == CHOOSE D \in fits : \A E \in fits : Cardinality(D) <= Cardinality(E)
   IN [definite |-> def, ok |-> ~def \/ Conserved(c, obs),
-      fit |-> IF m.rc = obs.rc /\ m.bytes = obs.bytes THEN <<>> ELSE <<"none">>,
+      fit |-> IF Run({}, c) = obs THEN <<>> ELSE IF fits = {} THEN <<"none">> ELSE SetToSeq(best),
       why |-> IF ~def \/ Conserved(c, obs) THEN "" ELSE IF obs.rc # 0 THEN "exit status"
               ELSE IF ~Decode(obs.bytes).ok THEN Decode(obs.bytes).why ELSE "records differ"]
 =============================================================================
